@@ -24,8 +24,9 @@ CLAIMED = {
         'bound volume x accepted fraction, mean likelihood, Kish size; -inf/nan conventions for empty shells) and touches no other entry; a ghost up-to-date bit per bound - cleared by '
         'every write to an input of those formulas (the shell\'s log_l, its proposal counter, the bound\'s sampling state, the view parameters) or to the statistic arrays, set only by '
         'update_shell_info - is invariantly true for every sampled shell after add_bound, add_samples, the discard setter and every branch of run(); never more samples than proposals in '
-        'either view; log_z is the logsumexp over non-empty shells of (mean likelihood + volume); posterior() weights are shell volume / max(n,1) x likelihood.',
-   note=TRUST + 'The Kish identity / evidence sum as mathematical lemmas and the n_eff, eta closed forms are not machine-checked (their bodies are proved read-only in C11); -inf/nan are '
+        'either view; log_z is the logsumexp over non-empty shells of (mean likelihood + volume); posterior() weights are shell volume / max(n,1) x likelihood; n_eff is 0 without informative shells and otherwise (sum W)^2 / sum (W^2 / n_eff_shell) over shells with '
+        'n_eff_shell > 0, W = exp(mean likelihood + volume - max); eta is exp(2 lse(z) - 2 lse(z - log(n_eff_shell/n)/2)) over shells with samples.',
+   note=TRUST + 'Splitting the sample-level Kish sums over shells (which turns the shell-level n_eff / eta formulas into the sample-level statement) is a mathematical lemma, not machine-checked; -inf/nan are '
         'distinguished constants with uninterpreted log/exp/logsumexp (term equalities). Soundness of the up-to-date bit rests on the mechanical store hooks of the executor.',
    tech='contract-based deductive verification with ghost dirty-bit state, z3', ref='7 C02'),
  'C03': dict(
@@ -47,7 +48,7 @@ CLAIMED = {
         'dirty bit per persistent field (set by every assignment and by the modifies clause of every callee, cleared by write, cleared by write_shell_update only for the set proved '
         'equivalent in (2) and only for the shell that was sampled) is clear for every field at every loop boundary and at return once a file exists, and a checkpoint written right '
         'before a batch is re-entrant (the bound-insertion guard is false in the written state), so the file on disk after k batches is the continuation state after k batches.',
-   note=TRUST + 'h5py exact + closed world; bounds abstract with the round-trip axiom (C09: proved for Union/basic classes, bounded for NautilusBound/NeuralBound); int(str(x)) = x. The final '
+   note=TRUST + 'h5py exact + closed world; bounds abstract with the round-trip axiom (C09: proved for every bound class, the emulator inside a NeuralBound assumed); int(str(x)) = x. The final '
         'step "equal continuation state => bit-identical continuation" is the determinism argument of C11 and is not machine-checked; constructor arguments are given again on resume. (5) assumes the file is in sync at entry of run(), n_update >= 1 and n_like_new_bound >= 1; list '
         'mutation through .pop() is not tracked (a full write follows it). Replay/bounded leg: stops through n_like_max at batch boundaries, copies of the checkpoint taken at the start '
         'of every batch (kill during a batch) resumed to completion, bound insertion driven by n_like_new_bound as well as n_update.',
@@ -67,10 +68,12 @@ CLAIMED = {
         'vector), compute() encloses every construction point when enlarge > 1, and the rescaling block of the MVEE routine yields form <= 1 with a coherently scaled inverse; Union '
         '(members abstract): contains is any-member AND cube, every sample is contained and inside the cube when restricted to it (cache + loop invariant); NeuralBound: contains implies '
         'the outer ellipsoid; NautilusBound: contains is outer union AND some neural bound (in the shifted frame), serial and pool sampling return exactly n rows that contains() accepts '
-        'and that lie in the unit cube (uses the shift inverse law of C16).',
-   note=TRUST + 'Linear-algebra laws (inverse, Cholesky, quadratic-form scaling, sqrt) are axioms of the vector algebra; a Gaussian vector is non-zero; pickled worker copies keep the geometry; '
-        'emulator row-wise. UnitCubeEllipsoidMixture (column projections) and "stays contained after any sequence of splits" have no proof here: bounded runtime check (check_c07.py); '
-        'split keeping every point in one of the new members is C13\'s partition post.',
+        'and that lie in the unit cube (uses the shift inverse law of C16); UnitCubeEllipsoidMixture (column algebra: cube part / ellipsoid part of a point, all three shapes): contains is '
+        'the conjunction of the two parts and every sample is contained; Union.split / Union.trim (contracts shared with C13) end with an empty proposal cache and a partition of the '
+        'construction points, so no stale proposal survives a restructuring.',
+   note=TRUST + 'Linear-algebra laws (inverse, Cholesky, quadratic-form scaling, sqrt) and the laws of complementary column sets are axioms; a Gaussian vector is non-zero; pickled worker copies '
+        'keep the geometry; emulator row-wise. UnitCubeEllipsoidMixture.compute (dimension-selection loops) and "construction points stay contained after any sequence of splits" on real '
+        'objects have no proof here: bounded runtime check (check_c07.py).',
    tech='contract-based deductive verification over abstract membership predicates and a vector algebra, z3 (NRA)', ref='7 C07'),
  'C08': dict(
    text='Deductive proof of REFINEMENT, not of the distributional statement itself (contracts have no probabilistic semantics): for all inputs the real code is the reference algorithm '
@@ -79,11 +82,12 @@ CLAIMED = {
         'makes one multinomial(1000, exp(log_v_all - logsumexp(log_v_all))) draw (U1), accepts a candidate iff its uniform draw exceeds 1 - 1/multiplicity (U3), adds 1000 to n_sample and '
         '1000 - #accepted to n_reject so that cube and overlap rejections are both counted (U4), appends accepted rows in order and returns the oldest cached rows (U5); Union.log_v = '
         'logsumexp(log_v_all) + log(1 - n_reject/n_sample) after a lazy first draw that leaves existing counters untouched (U6); NautilusBound: serial rounds add 1000 / 1000 - #accepted '
-        '(N1), the pool path adds every worker\'s counters of both levels and all its rows (N2), log_v = outer log_v + log(1 - n_reject/n_sample) (N3). Checkpoint round trip of the counters '
-        'and geometry is C09.',
+        '(N1), the pool path adds every worker\'s counters of both levels and all its rows (N2), log_v = outer log_v + log(1 - n_reject/n_sample) (N3); UnitCubeEllipsoidMixture: the sample is '
+        'the join of a cube-part draw and an ellipsoid-part draw (M1) and log_v is the ellipsoid volume, the cube part having volume one (M2). Checkpoint round trip of the counters and '
+        'geometry is C09.',
    note=TRUST + 'NOT machine-checked: the probabilistic lemma (volume-proportional component choice + acceptance 1/multiplicity => uniform on the union; accepted fraction is an unbiased estimate of the '
-        'volume ratio; z/|z| u^(1/d) uniform in the ball), independence and distribution of numpy Generator draws, log 2 + lnGamma(3/2) = (1/2) log pi. UnitCubeEllipsoidMixture members and the '
-        'worker side of the pool are not under contract here. Bounded stand-in (never counted as proved; runs in both tiers as replay leg and as the bounded leg): fixed-seed two-sample '
+        'volume ratio; z/|z| u^(1/d) uniform in the ball), independence and distribution of numpy Generator draws, log 2 + lnGamma(3/2) = (1/2) log pi. The worker side of the pool (_reset_and_sample) is '
+        'not under contract here. Bounded stand-in (never counted as proved; runs in both tiers as replay leg and as the bounded leg): fixed-seed two-sample '
         'chi-square occupancy test of sample() against brute-force rejection sampling through contains(), and exp(log_v) against a Monte-Carlo volume, for Ellipsoid, Union over both member '
         'classes after maximal splitting, NautilusBound with a network, periodic or not; alarm only at p < 1e-9.',
    tech='contract-based deductive verification (refinement of a reference algorithm with ghost capture of generator draws) + bounded statistical stand-in', ref='7 C08'),
